@@ -109,7 +109,17 @@ func followUpChain(g *gen.G, variant int) ([]*gen.Change, []gen.Plant, string) {
 			plants = append(plants, gen.Plant{Kind: "expr", Text: fmt.Sprintf(format, n[0], n[1])})
 		}
 	}
-	switch variant % 7 {
+	switch variant % 8 {
+	case 7:
+		// ... and matches an element that an earlier change generated behind an elision, also where the elided run
+		// was empty
+		plant("chainOld()%.0s%.0s")
+		plant("chainOld(%s)%.0s")
+		plant("chainOld(%s, %s)")
+		return []*gen.Change{
+			mk("c01-chain-1", nil, "chainOld(‹1:args›)", "chainMid(‹1:args›, nil)"),
+			mk("c01-chain-2", nil, "chainMid(‹1:args›, nil)", "chainNew(‹1:args›, 0)"),
+		}, plants, "matches-an-element-generated-behind-an-elision"
 	case 6:
 		// a later change elides, and reproduces, arguments that an earlier change generated next to captured ones
 		plant("chainOld(%s, %s)")
